@@ -12,10 +12,10 @@ Valid(e) ==
     [] e.op = "commute"  -> e.res = PCommute(FromF2(e.a), FromF2(e.b))
     [] e.op = "F2_to_str" -> e.letters = ToLetters(FromF2(e.a)) /\ e.sign = ToSign(FromF2(e.a))
     [] e.op = "str_to_F2" -> e.res = ToF2(FromStr(e.letters, e.sign))
-    [] e.op = "F2_to_index" -> e.digits = ToIndexDigits(FromF2(e.a))
+    [] e.op = "F2_to_index" -> e.digits = ToIndexDigits(FromF2(e.a)) /\ e.inrange          \* inrange: 0 <= index < 4^n as an integer (the digits are taken mod 2^64)
     [] e.op = "index_to_F2" -> e.res = ToF2(FromIndexDigits(e.digits))
     [] e.op = "index_to_str" -> e.letters = e.digits
-    [] e.op = "str_to_index" -> e.digits = e.letters
+    [] e.op = "str_to_index" -> e.digits = e.letters /\ e.inrange
     [] e.op = "rand_pauli" -> LET P == FromF2(e.res) IN
                                 /\ Len(e.res) = 2 * e.n + 2 /\ \A k \in 1..Len(e.res) : e.res[k] \in {0, 1}
                                 /\ (e.herm = "True" => PHerm(P)) /\ (e.herm = "False" => ~PHerm(P))
